@@ -1,7 +1,7 @@
 """C20 - status controllers (and operator) converge to the true aggregate.
 
  1. TLC model-checks spec/StatusAgg.tla (pods x phase x scheduled condition x whole/fraction request in 2
-    pod groups, queue tree of depth 3, histories of PodStep / Flip(preemptibility) / ReconcilePodGroup /
+    pod groups, queue tree of depth 3, histories of PodStep / PodDelete (down to zero pods) / Flip(preemptibility) / ReconcilePodGroup /
     ReconcileQueue in all orders) with ClearStale = TRUE (what the property demands: must hold) and
     ClearStale = FALSE (transcription of getStatusWithMetadata as read: a counterexample is a
     *prediction*, replayed below).
@@ -116,6 +116,8 @@ def H(s):
 
 
 SKELETON = [
+    "Pod1 Pod2 RecPG1 RecQ3 Del1 RecPG1 Del2 RecPG1 RecPG1 RecQ3 RecQ2 RecQ1",   # pods deleted one by one down to zero
+    "Pod3 Pod3 RecPG2 RecQ4 RecQ1 Del3 RecPG2 RecQ4 RecQ1 Flip2 RecPG2",         # single pod running, deleted: empty sums, then a flip of the empty group
     "Pod1 RecPG1 RecPG1 Flip1 RecPG1 RecPG1 RecQ3 RecQ2 RecQ1",               # non-preemptible -> preemptible with allocation
     "Pod3 Pod3 RecPG2 Flip2 RecPG2 Flip2 RecPG2 RecQ4 RecQ1",                   # preemptible -> non-preemptible -> preemptible
     "RecPG1 RecPG2 RecQ1 RecQ2 RecQ3 RecQ4 RecQ1 RecQ2 RecQ3 RecQ4",            # pending-unscheduled only: requested, nothing allocated; top-down
@@ -184,7 +186,7 @@ def triage_all(scen):
             continue
         a, i, w = ev["ev"], ev["i"], ev["w"]
         fix = False
-        if a == "Pod":
+        if a in ("Pod", "Del"):
             st[i - 1] = ev["st"]
             env(pgof[i - 1])
         elif a == "Flip":
@@ -212,10 +214,11 @@ def triage_all(scen):
         for g in range(1, ng + 1):
             if pgfresh[g - 1]:
                 t = truepg(g)
+                gone = all(st[p] == "X" for p in range(np_) if pgof[p] == g)
                 if pgst[g - 1]["req"] != t["req"]:
-                    out.append(("C20_PodGroupRequested", "requested-mismatch"))
+                    out.append(("C20_PodGroupRequested", "requested-stale-after-all-pods-deleted" if gone else "requested-mismatch"))
                 if pgst[g - 1]["alloc"] != t["alloc"]:
-                    out.append(("C20_PodGroupAllocated", "allocated-mismatch"))
+                    out.append(("C20_PodGroupAllocated", "allocated-stale-after-all-pods-deleted" if gone else "allocated-mismatch"))
                 if not pre[g - 1] and pgst[g - 1]["nonpre"] != t["alloc"]:
                     out.append(("C20_PodGroupNonPreemptibleSet", "allocatedNonPreemptible-not-allocated-for-non-preemptible-group"))
                 if pre[g - 1] and pgst[g - 1]["nonpre"] != Z:
@@ -381,7 +384,7 @@ def run(ctx):
     ctx.assumptions += [
         "the API server is the controller-runtime fake client (status sub-resources for PodGroup, Queue, Pod); typed Get/List results carry their GroupVersionKind as the manager's cache-backed client does",
         "QueueReconciler's resourceUpdater/childQueuesUpdater are injected through reflection instead of SetupWithManager; the two field indexes it registers (.spec.parentQueue, .spec.queue) are re-declared in the harness with the same one-line functions",
-        "pods request whole GPUs (container request) or a GPU fraction (gpu-fraction annotation; the binder's received-resource-type annotation is set when the pod becomes scheduled) and CPU; gpu-memory requests and DRA claims are not exercised",
+        "pods can be deleted from any state, down to zero pods in a group", "pods request whole GPUs (container request) or a GPU fraction (gpu-fraction annotation; the binder's received-resource-type annotation is set when the pod becomes scheduled) and CPU; gpu-memory requests and DRA claims are not exercised",
         "preemptibility flips are edits of spec.preemptibility or of the priority class name (train=50 / build=100), alternating per scenario",
         "a mutating call = create/update/delete or a patch with a non-empty body; the Queue controller always issues a status patch whose body is empty when nothing changed (counted as no write)",
         "quantities are compared in milli-units of nvidia.com/gpu and cpu",
